@@ -402,7 +402,7 @@ def run(ctx):
     if ctx.tier == 'quick':
         core.run_sharded(ctx, __name__, 'shard', 1, (2500,))
     else:
-        core.run_sharded(ctx, __name__, 'shard', getattr(ctx, 'shards_override', None) or 16, (10000,))
+        core.run_sharded(ctx, __name__, 'shard', getattr(ctx, 'shards_override', None) or 16, (25000,))
 
 
 def extra_evidence(ctx):
